@@ -6,6 +6,14 @@ package planner
 
 //@ nonnil-elems *QueryPlanStep
 
+// C14 (a): the cache key must cover everything planning reads from the context
+// (Schema and TypeURLMap are fixed per gateway).
+//@ reads-covered (SequentialPlanner).Plan ctx by (*CachedPlanner).hash ctx except Schema TypeURLMap @props C14
+// C14 (b): a plan handed out by a planner may be shared (cache): nobody outside the
+// planner package may assign into it.
+//@ immutable-outside QueryPlanStep @props C14
+//@ immutable-outside QueryPlan @props C14
+
 //@ func Planner.Plan
 //@ props C08 C10 C07
 //@ params ctx
